@@ -634,3 +634,25 @@ Definition L4_corrupt_body : bytes := (1 :: s "A") ++ (9 :: s "B").
 
 Definition zi (n : str) (d : bytes) (r : zread) : zinfo :=
   {| z_name := n; z_isdir := false; z_flags := 0; z_size := lenN d; z_read := r |}.
+
+(* ====================================================================== path labels *)
+Section Labels.
+  Variable T : tables.
+  Variable supported : str -> bool.
+  Variable lower : str -> str.
+
+  Definition label_of (bn : str) (d : bytes) (p : str) : list str := [p].
+
+  Lemma labels_expected apath ms :
+    (max_memory T <=? max_archive_file T) = true ->
+    expected (list N) T supported lower label_of apath ms
+    = map (fun m => full_path apath (m_name m)) (filter (want T supported lower) ms).
+  Proof.
+    intro Hlim. apply N.leb_le in Hlim. unfold expected, entry, process_entry, label_of.
+    induction ms as [|m ms IH]; cbn [filter flat_map map]; [reflexivity|].
+    destruct (want T supported lower m) eqn:W; [|exact IH].
+    cbn [flat_map map]. rewrite IH.
+    unfold want in W. apply andb_true_iff in W as [_ W]. apply negb_true_iff in W. apply N.ltb_ge in W.
+    destruct (N.ltb_spec (max_archive_file T) (lenN (bytes_of m))); [lia|]. reflexivity.
+  Qed.
+End Labels.
